@@ -217,8 +217,13 @@ def roles(ctx):
     cands = [m for m in enf.methods.values() if m is not lr and any(
         isinstance(x, ast.Attribute) and x.attr == 'enforce_new_defaults'
         for x in ast.walk(m.node))]
-    # ... or reaches such a method and is handed the default to decide on
-    direct = list(cands)
+    # ... or reaches such a method (or a plain function of the module that
+    # reads the option) and is handed the default to decide on
+    direct = list(cands) + [g for g in lr.module.functions.values()
+                            if g.cls is None and any(
+                                isinstance(x, ast.Attribute)
+                                and x.attr == 'enforce_new_defaults'
+                                for x in ast.walk(g.node))]
     for m in enf.methods.values():
         if m is lr or m in cands or len(m.params) < 2 or m.name in (
                 '__init__', 'enforce', 'authorize', '__call__'):
@@ -442,3 +447,37 @@ def check_merge_memo(ctx, rule):
            'something else for the same default than a first load would'
            % (bad[2], bad[3]))
     ctx.floor(rule, n, 3, 'merge conditions')
+
+
+def check_conf_source(ctx, rule):
+    """Options are read from the configuration object the enforcer was
+    built with (`self.conf`, `enforcer.conf`): a read of the process-wide
+    `cfg.CONF` inside the library's functions decides for an enforcer on
+    somebody else's settings."""
+    prog = ctx.prog
+    n = 0
+    bad = 0
+    for mn in (PKG + '.policy', PKG + '._checks', PKG + '._external',
+               PKG + '._cache_handler'):
+        try:
+            m = prog.module(mn)
+        except Exception:
+            continue
+        for f in sorted(m.functions.values(), key=lambda x: x.qual):
+            n += 1
+            for x in ast.walk(f.node):
+                if isinstance(x, ast.Attribute) and x.attr == 'CONF' and \
+                        isinstance(x.ctx, ast.Load) and (prog.resolve(
+                            f.module, x.value) or '').endswith(
+                                'oslo_config.cfg'):
+                    bad += 1
+                    ctx.ob(rule, False, ctx.where(f.module, x), f.qual,
+                           U(x), 'reads the process-wide configuration '
+                           'object instead of the one the enforcer was '
+                           'given: an enforcer built on its own ConfigOpts '
+                           'is decided on the global settings')
+    if not bad:
+        ctx.ob(rule, True, ctx.where(prog.module(PKG + '.policy'),
+                                     prog.module(PKG + '.policy').tree),
+               PKG + '.policy', 'configuration reads in %d functions' % n,
+               'no function reads the global cfg.CONF')
